@@ -8,6 +8,7 @@ import (
 	"os/exec"
 	"path/filepath"
 	"regexp"
+	"runtime"
 	"sort"
 	"strconv"
 	"strings"
@@ -142,9 +143,12 @@ func cmdCheck(args []string) {
 	}
 	known := loadKnown(filepath.Join(*verifDir, "known_findings.json"))
 
-	timeout, canaryT, agree := 40, 2, 1
+	// budgets: the slowest obligation on the pinned tree needs ~25 s of z3 on this 16-core machine; 80 s (quick)
+	// leaves a factor of three for a slower or busier machine. Canaries get a short budget: they only have to
+	// fail to be proved.
+	timeout, canaryT, agree := 80, 2, 1
 	if *tier == "thorough" {
-		timeout, canaryT, agree = 90, 5, 2
+		timeout, canaryT, agree = 160, 5, 2
 		solvers = append(solvers, oldZ3)
 	}
 
@@ -244,7 +248,7 @@ func cmdCheck(args []string) {
 	dir, _ := os.MkdirTemp("", "govc-"+prop)
 	defer os.RemoveAll(dir)
 	maxFailures = 12
-	res := solveAll(obls, dir, timeout, canaryT, agree, 6)
+	res := solveAll(obls, dir, timeout, canaryT, agree, parallelObligations())
 
 	byFunc := map[string]*funcReport{}
 	for _, f := range funcs {
@@ -472,6 +476,18 @@ func cmdCheck(args []string) {
 var canonRe = regexp.MustCompile("#[0-9]+|[.][0-9]+$")
 
 func canonObl(n string) string { return canonRe.ReplaceAllString(n, "") }
+
+// parallelObligations: every obligation races four solver processes, so a quarter of the cores (at least 2).
+func parallelObligations() int {
+	n := runtime.NumCPU() / 4
+	if n < 2 {
+		n = 2
+	}
+	if n > 6 {
+		n = 6
+	}
+	return n
+}
 
 func loadExpected(path string) map[string]int {
 	m := map[string]int{}
